@@ -231,6 +231,12 @@ def trace_finalize(rep, mir, L):
     else: rep.holds('C14.e HashMapTraceStorage::finalize (0-3 chains, every Ok/Err pattern): results in chain order, the first per-chain error handed on, no error otherwise (%d paths)' % n)
 
 
+NAN_TOKENS = ('NA', 'NaN', 'nan', 'NAN', '')
+PINF_TOKENS = ('Inf', 'inf', '+Inf', '+inf', 'Infinity', 'INF')
+NINF_TOKENS = ('-Inf', '-inf', '-Infinity', '-INF')
+TRUE_TOKENS = ('1', 'true', 'True', 'TRUE')
+FALSE_TOKENS = ('0', 'false', 'False', 'FALSE')
+
 def csv_special_values(rep, mir, L):
     """CsvChainStorage::format_value on floating-point cells: NaN is printed as NA, +infinity as Inf, -infinity as -Inf (for f64 and f32, scalars and
     the first element of vectors), and only finite values go through the numeric formatter; booleans print as 1 / 0"""
@@ -255,10 +261,15 @@ def csv_special_values(rep, mir, L):
             text = v.s if isinstance(v, Str) else None
             sol = z3.Solver(); sol.set('timeout', 30000); sol.add(*m2.pc)
             if variant == 'ScalarBool':
-                sol.add(z3.Not(z3.And(text in ('1', '0'), b == (text == '1')))) if text in ('1', '0') else sol.add(z3.BoolVal(True))
+                sol.add(z3.Not(z3.And(text in TRUE_TOKENS + FALSE_TOKENS, b == (text in TRUE_TOKENS)))) if text in TRUE_TOKENS + FALSE_TOKENS else sol.add(z3.BoolVal(True))
             else:
                 isnan, ispinf, isninf = z3.fpIsNaN(x.v), z3.And(z3.fpIsInf(x.v), z3.fpIsPositive(x.v)), z3.And(z3.fpIsInf(x.v), z3.fpIsNegative(x.v))
-                want = {'NA': isnan, 'Inf': ispinf, '-Inf': isninf}
+                # the spelling of the three special values is the backend's convention (NA / Inf / -Inf today); what the property needs is that the printed
+                # token denotes the recorded value: any customary spelling of the right class is accepted, a token of another class is not
+                want = {}
+                for t_ in NAN_TOKENS: want[t_] = isnan
+                for t_ in PINF_TOKENS: want[t_] = ispinf
+                for t_ in NINF_TOKENS: want[t_] = isninf
                 if text in want: sol.add(z3.Not(want[text]))
                 else: sol.add(z3.Or(isnan, ispinf, isninf))          # anything else (the numeric formatter) must only see finite values
             if sol.check() != z3.unsat: bad.append((variant, 'prints %r for a value it does not denote' % (text if text is not None else 'a formatted number'), str(sol.model())[:120]))
@@ -283,13 +294,13 @@ def csv_special_values(rep, mir, L):
             for (m2, k, v) in outs:
                 if k != 'ret': bad.append((variant, 'format_value panics', str(v)[:100])); continue
                 if empty:
-                    if not (isinstance(v, Str) and v.s == 'NA'): bad.append((variant, 'an empty vector cell does not print NA', str(v)[:60]))
+                    if not (isinstance(v, Str) and v.s in NAN_TOKENS): bad.append((variant, 'an empty vector cell does not print a missing-value token', str(v)[:60]))
                 elif variant in ('ScalarU64', 'ScalarI64', 'U64', 'I64'):
                     if not (isinstance(v, Struct) and v.ty == 'IntText' and z3.is_expr(v.f[0]) and v.f[0].eq(first)): bad.append((variant, 'does not print the (first) integer of the cell', str(v)[:60]))
                 elif variant == 'Bool':
                     sol = z3.Solver(); sol.add(*m2.pc)
-                    if not (isinstance(v, Str) and v.s in ('1', '0')): bad.append((variant, 'a boolean cell prints neither 1 nor 0', str(v)[:60])); continue
-                    sol.add(first != (v.s == '1'))
+                    if not (isinstance(v, Str) and v.s in TRUE_TOKENS + FALSE_TOKENS): bad.append((variant, 'a boolean cell prints neither a true nor a false token', str(v)[:60])); continue
+                    sol.add(first != (v.s in TRUE_TOKENS))
                     if sol.check() != z3.unsat: bad.append((variant, 'prints %s for the opposite boolean' % v.s, ''))
                 else:
                     if not (isinstance(v, Str) and v.s == first.s): bad.append((variant, 'does not print the (first) string of the cell', str(v)[:60]))
